@@ -45,6 +45,11 @@ func (c *checker) rpc(e *sim.Ev) {
 			return
 		}
 		r.respSeq = e.Seq
+		if r.kind == "ae" || r.kind == "rv" || r.kind == "is" {
+			// the Term field of these responses is the responder's current term (a pre-vote response may
+			// carry the proposed term instead)
+			c.reportedTerm(e.S, e.Ep, e.C, e.Seq, r.kind+" response")
+		}
 		if m := c.inflight[e.S]; m != nil {
 			delete(m, r.id)
 		}
@@ -256,4 +261,27 @@ func (c *checker) onResponse(r *rpcRec, e *sim.Ev) {
 		}
 	}
 	c.ext.resp(c, r, e)
+}
+
+// reportedTerm (C06.3): the term a server shows to the outside - in its responses, through CurrentTerm() - never
+// decreases, in particular not across a crash: whatever it has reported must have been durable. Reports of one
+// incarnation are logged by concurrent goroutines, so only reports of different incarnations are compared (everything
+// an incarnation logs precedes its crash in the event log).
+func (c *checker) reportedTerm(name string, ep int, t uint64, seq uint64, what string) {
+	s := c.server(name)
+	if ep > s.repEpoch {
+		if s.repMaxCur > s.repMaxPrev {
+			s.repMaxPrev, s.repMaxPrevWhat = s.repMaxCur, s.repMaxCurWhat
+		}
+		s.repEpoch, s.repMaxCur = ep, 0
+	} else if ep < s.repEpoch {
+		return
+	}
+	c.cov("reported-term")
+	if t < s.repMaxPrev {
+		c.violate("C06", "reported-term-decrease", seq, "%s/%d reports term %d (%s) although an earlier incarnation had reported term %d (%s): the term it showed was not durable", name, ep, t, what, s.repMaxPrev, s.repMaxPrevWhat)
+	}
+	if t > s.repMaxCur {
+		s.repMaxCur, s.repMaxCurWhat = t, what
+	}
 }
